@@ -1473,9 +1473,29 @@ pub fn add_triggers(pb: &mut Pb, mask: u32, base: u64) -> u64 {
         s.mov(reg("RDI", 8), ro("jail"));
         s.mov(reg("RSI", 8), cst(0, 8));
         call_extern(&mut s, pb, "access");
-        s.mov(reg("RDI", 8), ro("jail"));
-        s.mov(reg("RSI", 8), cst(0, 8));
-        call_extern(&mut s, pb, "open");
+        if on(16) {
+            // `if (access(..) == 0) open(..) else open(..)`: a sink call on both sides of a branch
+            s.ins1(reg("ZF", 1), "INT_EQUAL", &[reg("RAX", 8), cst(0, 8)]);
+            let a = s.ia + 4;
+            let b = a + 16;
+            let join = b + 12;
+            s.cbranch(reg("ZF", 1), b, a);
+            s.begin_block(a);
+            s.mov(reg("RDI", 8), ro("jail"));
+            s.mov(reg("RSI", 8), cst(0, 8));
+            call_extern(&mut s, pb, "open");
+            s.branch(join);
+            assert_eq!(s.ia, b);
+            s.begin_block(b);
+            s.mov(reg("RDI", 8), ro("jail"));
+            s.mov(reg("RSI", 8), cst(2, 8));
+            call_extern(&mut s, pb, "open");
+            assert_eq!(s.ia, join);
+        } else {
+            s.mov(reg("RDI", 8), ro("jail"));
+            s.mov(reg("RSI", 8), cst(0, 8));
+            call_extern(&mut s, pb, "open");
+        }
         n += 1;
     }
     if on(6) {
